@@ -536,6 +536,15 @@ def _stamp_ok(F, CG, fn, t, seen, depth=0):
     s = show(t)
     if t[0] == "const":
         return False, "const:%r" % (t[1],)
+    # `next height + offset` inside a loop that finalises several blocks (mine_blocks): one +1 term that is the next height,
+    # the rest a loop offset (range iterator / constants)
+    lf = lin(t)
+    if len(lf.terms) >= 2 and lf.k >= 0:
+        base = [a for a, c in lf.terms.items() if c == 1 and any(x[1].split("::")[-1] == "get_next_block_height" for x in calls_in(a))
+                and not any(x[1].split("::")[-1] == "get_latest_block_height" for x in calls_in(a))]
+        rest = [a for a, c in lf.terms.items() if a not in base]
+        if len(base) == 1 and all(lf.terms[a] > 0 and (mentions(a, "next") or mentions(a, "into_iter") or a[0] in ("loop", "phi")) for a in rest):
+            return True, "get_next_block_height() + loop offset"
     # result of D::get_next_block_height / engine get_next_block_height (through `?`)
     cs = calls_in(t)
     if cs:
@@ -598,7 +607,7 @@ def _genesis_guard(g, c):
         if not be:
             continue
         t, truth = be
-        if truth is True and mentions(t, "is_none") and mentions(t, "get_block_by_number"):
+        if ((truth is True and mentions(t, "is_none")) or (truth is False and mentions(t, "is_some"))) and mentions(t, "get_block_by_number"):
             for x in calls_in(t):
                 if x[1].split("::")[-1] == "get_block_by_number" and len(x[2]) > 1 and x[2][1][0] == "const" and x[2][1][1] == 0:
                     return True
